@@ -50,6 +50,12 @@ def contexts(rng, ref, has_alias):
     if not has_alias:
         yield 'insert', 'INSERT INTO' + w() + ref + w() + 'VALUES (1)', sql.Identifier
     yield 'subquery', 'SELECT q FROM (SELECT' + w() + ref + w() + 'FROM tt) sub', sql.Identifier
+    # subqueries that an earlier pass already wrapped into an Identifier (AS alias, CTE body), and references in their FROM lists
+    yield 'subquery-as', 'SELECT q FROM (SELECT' + w() + ref + w() + 'FROM tt)' + w() + 'AS sub', sql.Identifier
+    yield 'subquery-as-from', 'SELECT q FROM (SELECT a FROM' + w() + ref + ')' + w() + 'AS sub', sql.Identifier
+    yield 'cte-body', 'WITH cq AS (SELECT' + w() + ref + w() + 'FROM tt)' + w() + 'SELECT 1 FROM cq', sql.Identifier
+    yield 'join-subquery-as', 'SELECT a FROM tt JOIN (SELECT' + w() + ref + w() + 'FROM uu)' + w() + 'AS j ON k1 = k2', sql.Identifier
+    yield 'select-list-subquery', 'SELECT (SELECT' + w() + ref + w() + 'FROM tt)' + w() + 'AS s1, b FROM zz', sql.Identifier
 
 
 def find(stmt, cls, reftext):
